@@ -81,3 +81,11 @@ package clientpb
 //@   loop 0 invariant [monotone] forall id uint32 :: c.clientSeqNumbers[id] >= old(c.clientSeqNumbers[id])
 //@   loop 0 invariant [marked] batch != nil ==> forall i int :: {batch.Commands[i]} 0 <= i && i <= rangeindex ==> isdupc(c, batch.Commands[i])
 //@   modifies c.clientSeqNumbers[*]
+
+// The deterministic protobuf encoding of a batch: a function of the batch (external library).
+//@ pure func batchbyte(b *Batch, i int) int
+//@ pure func batchblen(b *Batch) int
+//@ func (*Batch).Marshal
+//@   trusted deterministic protobuf encoding (external library); panics on failure
+//@   ensures fresh(result) && len(result) == batchblen(b) && batchblen(b) >= 0 && (forall i int :: {result[i]} 0 <= i && i < len(result) ==> result[i] == batchbyte(b, i))
+//@   modifies alloc
